@@ -858,6 +858,188 @@ pub fn mate(args: &[String]) -> i32 {
         w.flush().ok();
         return 0;
     }
+    // SPECIAL-MOVE mates: the mate in one (or the mating reply to be avoided) is delivered by castling, by an en-passant
+    // capture, by a promotion (under-promotions included) or by a discovered / double check.  Templates raise the odds, the
+    // engine's generator only proposes, TLC recomputes MateInOne / AllowsMateInOne from ChessRules.
+    let special: usize = arg(args, "--special", "0").parse().unwrap();
+    if special > 0 {
+        let mirror = |cs: &[i32]| -> Vec<i32> {
+            let mut o = vec![0i32; 64];
+            for s in 0..64 {
+                if cs[s] != 0 {
+                    o[s ^ 56] = if cs[s] <= 6 { cs[s] + 6 } else { cs[s] - 6 };
+                }
+            }
+            o
+        };
+        let mut made = [0usize; 8];
+        let mut guard = 0usize;
+        while made.iter().sum::<usize>() < special * 8 && guard < special * 400000 {
+            guard += 1;
+            let tpl = guard % 4;
+            if made[tpl * 2] >= special && made[tpl * 2 + 1] >= special {
+                continue;
+            }
+            let mut cs = vec![0i32; 64];
+            let mut cr = String::new();
+            let mut ep: Option<u8> = None;
+            let mut keep_empty: Vec<usize> = vec![];
+            let mut from_sq: Option<usize> = None;
+            let place = |cs: &mut Vec<i32>, c: i32, lo: usize, hi: usize, keep: &Vec<usize>, rng: &mut rand::rngs::StdRng| -> Option<usize> {
+                for _ in 0..60 {
+                    let q = rng.gen_range(lo..hi);
+                    if cs[q] == 0 && !keep.contains(&q) && !((c == 1 || c == 7) && (q < 8 || q >= 56)) {
+                        cs[q] = c;
+                        return Some(q);
+                    }
+                }
+                None
+            };
+            match tpl {
+                0 => {
+                    cs[4] = 6;
+                    if rng.gen_bool(0.5) {
+                        cs[7] = 4;
+                        cr.push('K');
+                        keep_empty.extend([5, 6]);
+                    } else {
+                        cs[0] = 4;
+                        cr.push('Q');
+                        keep_empty.extend([1, 2, 3]);
+                    }
+                    place(&mut cs, 12, 0, 24, &keep_empty, &mut rng);
+                }
+                1 => {
+                    let f = rng.gen_range(0..8usize);
+                    let g = if f == 0 { 1 } else if f == 7 { 6 } else if rng.gen_bool(0.5) { f + 1 } else { f - 1 };
+                    cs[32 + f] = 7;
+                    cs[32 + g] = 1;
+                    ep = Some((40 + f) as u8);
+                    keep_empty.extend([40 + f, 48 + f]);
+                    place(&mut cs, 12, 32, 64, &keep_empty, &mut rng);
+                    place(&mut cs, 6, 0, 64, &keep_empty, &mut rng);
+                }
+                2 => {
+                    let f = rng.gen_range(0..8usize);
+                    cs[48 + f] = 1;
+                    if rng.gen_bool(0.5) {
+                        keep_empty.push(56 + f);
+                    }
+                    place(&mut cs, 12, 40, 64, &keep_empty, &mut rng);
+                    place(&mut cs, 6, 0, 64, &keep_empty, &mut rng);
+                    if rng.gen_bool(0.5) {
+                        let c = [8, 9, 10][rng.gen_range(0..3)];
+                        let t = if f == 0 { 57 } else if f == 7 { 62 } else { 56 + f + 1 - 2 * rng.gen_range(0..2usize) };
+                        if cs[t] == 0 {
+                            cs[t] = c;
+                        }
+                    }
+                }
+                _ => {
+                    // weak king, a strong man X, a strong slider S behind X on one line through the king
+                    let k = rng.gen_range(0..64usize);
+                    let dirs: [(i32, i32); 8] = [(1, 0), (-1, 0), (0, 1), (0, -1), (1, 1), (1, -1), (-1, 1), (-1, -1)];
+                    let (df, dr) = dirs[rng.gen_range(0..8)];
+                    let (t1, t2) = (rng.gen_range(1..4i32), rng.gen_range(1..4i32));
+                    let (kf, kr) = ((k % 8) as i32, (k / 8) as i32);
+                    let (xf, xr) = (kf + df * t1, kr + dr * t1);
+                    let (sf, sr) = (kf + df * (t1 + t2), kr + dr * (t1 + t2));
+                    if !(0..8).contains(&sf) || !(0..8).contains(&sr) {
+                        continue;
+                    }
+                    cs[k] = 12;
+                    let x = (xr * 8 + xf) as usize;
+                    let sl = (sr * 8 + sf) as usize;
+                    let xc = [2, 2, 3, 4, 1][rng.gen_range(0..5)];
+                    if xc == 1 && (x < 8 || x >= 48) {
+                        continue;
+                    }
+                    cs[x] = xc;
+                    cs[sl] = if df == 0 || dr == 0 { [4, 5][rng.gen_range(0..2)] } else { [3, 5][rng.gen_range(0..2)] };
+                    for t in 1..(t1 + t2) {
+                        if t != t1 {
+                            keep_empty.push(((kr + dr * t) * 8 + kf + df * t) as usize);
+                        }
+                    }
+                    from_sq = Some(x);
+                    place(&mut cs, 6, 0, 64, &keep_empty, &mut rng);
+                }
+            }
+            if !cs.iter().any(|&c| c == 6) || !cs.iter().any(|&c| c == 12) {
+                continue;
+            }
+            for _ in 0..rng.gen_range(1..=4) {
+                let c = [5, 4, 4, 3, 2, 1, 1][rng.gen_range(0..7)];
+                place(&mut cs, c, 0, 64, &keep_empty, &mut rng);
+            }
+            let flip = rng.gen_bool(0.5);
+            // P: the strong side to move, the special move mates
+            if made[tpl * 2] < special && proj::playable(&cs, true) {
+                let b = proj::build_from(&cs, true, &cr, ep);
+                if let Ok(moves) = catch_unwind(AssertUnwindSafe(|| mg.generate_moves(&b))) {
+                    let hit = moves.iter().any(|m| {
+                        let sp = match tpl {
+                            0 => m.move_type == MoveType::Castle,
+                            1 => m.move_type == MoveType::EnPassant,
+                            2 => m.move_type == MoveType::Promotion,
+                            _ => Some(m.from as usize) == from_sq,
+                        };
+                        sp && is_mated(&mg, &b.clone_with_move(m))
+                    });
+                    if hit {
+                        let bb = if flip {
+                            proj::build_from(&mirror(&cs), false, &cr.to_lowercase(), ep.map(|e| e ^ 56))
+                        } else {
+                            b
+                        };
+                        let before = n1;
+                        let mut big = usize::MAX / 2;
+                        emit(&bb, &mut w, &mut n1, &mut big, true);
+                        if n1 > before {
+                            made[tpl * 2] += 1;
+                        }
+                    }
+                }
+            }
+            // P': the weak side to move (one more weak man so that it has a choice); some replies allow the special mate
+            if tpl != 1 && made[tpl * 2 + 1] < special {
+                let mut c2 = cs.clone();
+                let wc = [10, 8, 9, 7][rng.gen_range(0..4)];
+                place(&mut c2, wc, 0, 64, &keep_empty, &mut rng);
+                if proj::playable(&c2, false) {
+                    let b = proj::build_from(&c2, false, &cr, None);
+                    let special_reply = |b: &Board| -> bool {
+                        let ms = match catch_unwind(AssertUnwindSafe(|| mg.generate_moves(b))) {
+                            Ok(m) => m,
+                            Err(_) => return false,
+                        };
+                        ms.iter().any(|m| {
+                            let c = b.clone_with_move(m);
+                            mg.generate_moves(&c).iter().any(|r| {
+                                let sp = match tpl {
+                                    0 => r.move_type == MoveType::Castle,
+                                    2 => r.move_type == MoveType::Promotion,
+                                    _ => Some(r.from as usize) == from_sq,
+                                };
+                                sp && is_mated(&mg, &c.clone_with_move(r))
+                            })
+                        })
+                    };
+                    if special_reply(&b) {
+                        let bb = if flip { proj::build_from(&mirror(&c2), true, &cr.to_lowercase(), None) } else { b };
+                        let before = nd;
+                        let mut dummy = usize::MAX / 2;
+                        emit(&bb, &mut w, &mut dummy, &mut nd, false);
+                        if nd > before {
+                            made[tpl * 2 + 1] += 1;
+                        }
+                    }
+                }
+            }
+        }
+        w.flush().ok();
+        return 0;
+    }
     let mut games = 0;
     while (n1 < want_m1 || nd < want_def) && games < 20000 {
         games += 1;
